@@ -29,6 +29,9 @@ CONSTANTS Base,      \* base-unit tokens
           MaxE,      \* bound on |factor exponent|
           MaxP,      \* bound on |prefix exponent|
           Ops,       \* enabled operations
+          Seeds,     \* extra units already interned at Init (built by ordinary algebra before the history starts)
+          Foreign,   \* units whose serialised form arrives from ANOTHER process (may not be interned here yet)
+          QKinds,    \* what is serialised: 0 the unit itself; 1, 2, 3 a quantity with int, float, Decimal magnitude
           Shipped    \* subset of {"as_ratio_dim", "root_floor"}: deviations of the shipped code
 
 VARIABLES known, dimOf, oidOf, nextOid, pickled, ev
@@ -136,25 +139,35 @@ Touch(u, v, kind) ==
   /\ ev' = Ev("touch", u, v, 0, kind, "ok", <<>>, <<>>, <<>>, {})
   /\ UNCHANGED <<tab, pickled>>
 
-\* C15: serialisation is two separate steps so that other operations may come in between
-Dump(u, codec) ==
-  /\ "dump" \in Ops /\ <<u, codec>> \notin pickled
-  /\ pickled' = pickled \cup {<<u, codec>>}
-  /\ ev' = Ev("dump", u, One, 0, codec, "ok", <<>>, <<>>, <<>>, {})
+\* C15: serialisation is two separate steps so that other operations may come in between.
+\* kind 0 = the unit itself; kind 1, 2, 3 = a quantity of that unit with an int, float, Decimal magnitude
+Dump(u, codec, kind) ==
+  /\ "dump" \in Ops /\ <<u, codec, kind>> \notin pickled
+  /\ pickled' = pickled \cup {<<u, codec, kind>>}
+  /\ ev' = Ev("dump", u, One, kind, codec, "ok", <<>>, <<>>, <<>>, {})
   /\ UNCHANGED tab
-Load(u, codec) ==
-  /\ "load" \in Ops /\ <<u, codec>> \in pickled
-  /\ ev' = Ev("load", u, One, 0, codec, "ok", <<u>>, <<dimOf[u]>>, <<oidOf[u]>>, {})
+Load(u, codec, kind) ==
+  /\ "load" \in Ops /\ <<u, codec, kind>> \in pickled
+  /\ ev' = Ev("load", u, One, kind, codec, "ok", <<u>>, <<dimOf[u]>>, <<oidOf[u]>>, {})
   /\ UNCHANGED <<tab, pickled>>
+\* a serialised unit / quantity that was produced by another process: loading it is get-or-create
+LoadForeign(u, codec, kind) ==
+  /\ "loadf" \in Ops /\ u \in Foreign
+  /\ Intern({u}, Right({u}))
+  /\ ev' = Ev("loadf", u, One, kind, codec, "ok", <<u>>, <<DimOf(u.f)>>, <<oidOf'[u]>>, {u} \ known)
+  \* what has been loaded is part of the observable history (kind + 10 marks a foreign load), so that
+  \* sequences of loads are distinct behaviours even when the table does not change
+  /\ <<u, codec, kind + 10>> \notin pickled
+  /\ pickled' = pickled \cup {<<u, codec, kind + 10>>}
 
 Codecs == {"pickle", "copy", "deepcopy", "json"}
 Kinds  == {"str", "ratio", "pretty", "mathml"}
 
-Init == /\ known = {One} \cup {Single(b) : b \in Base}
+RECURSIVE Enum(_)
+Enum(S) == IF S = {} THEN <<>> ELSE LET x == CHOOSE y \in S : TRUE IN <<x>> \o Enum(S \ {x})
+Init == /\ known = {One} \cup {Single(b) : b \in Base} \cup Seeds
         /\ dimOf = [u \in known |-> DimOf(u.f)]
-        /\ oidOf = LET n == Cardinality(known)
-                       sq == CHOOSE s \in [1..n -> known] : \A i, j \in 1..n : i # j => s[i] # s[j]
-                   IN [u \in known |-> CHOOSE i \in 1..n : sq[i] = u]
+        /\ oidOf = LET sq == Enum(known) IN [u \in known |-> CHOOSE i \in 1..Len(sq) : sq[i] = u]
         /\ nextOid = 100
         /\ pickled = {}
         /\ ev = Ev("init", One, One, 0, "", "ok", <<>>, <<>>, <<>>, {})
@@ -165,7 +178,8 @@ Next == \/ \E u, v \in known : Mul(u, v) \/ Div(u, v) \/ (\E k \in {"convert", "
         \/ \E u \in known, e \in PExp : PMul(u, e)
         \/ \E u \in known : AsRatio(u) \/ Quantify(u)
         \/ \E u \in known, k \in Kinds : Render(u, k)
-        \/ \E u \in known, c \in Codecs : Dump(u, c) \/ Load(u, c)
+        \/ \E u \in known, c \in Codecs, q \in QKinds : Dump(u, c, q) \/ Load(u, c, q)
+        \/ \E u \in Foreign, c \in {"pickle", "json"}, q \in QKinds : LoadForeign(u, c, q)
 Spec == Init /\ [][Next]_vars
 
 (* ---------------- properties ---------------- *)
@@ -177,7 +191,8 @@ C02_Canonical     == \A u, v \in known : oidOf[u] = oidOf[v] => u = v
 C02_SameObject    == [][\A u \in known : oidOf'[u] = oidOf[u]]_vars
 C02_ResultObject  == (ev.op # "init" /\ ev.out = "ok") =>
                         \A i \in 1..Len(ev.r) : ev.r[i] \in known /\ ev.oid[i] = oidOf[ev.r[i]]
-C15_Identity      == [][ev'.op = "load" => (ev'.oid = <<oidOf[ev'.a]>> /\ UNCHANGED tab)]_vars
+C15_Identity      == [][/\ ev'.op = "load" => (ev'.oid = <<oidOf[ev'.a]>> /\ UNCHANGED tab)
+                        /\ (ev'.op = "loadf" /\ ev'.a \in known) => (ev'.oid = <<oidOf[ev'.a]>> /\ UNCHANGED tab)]_vars
 TypeOK == /\ \A u \in known : InBounds(u) \/ u.p \notin -MaxP..MaxP \/ TRUE
           /\ DOMAIN dimOf = known /\ DOMAIN oidOf = known
 =============================================================================
